@@ -156,7 +156,7 @@ plan("C11", "exploration",
       "NEON code paths cannot run on this x86-64 host",
       "a clean sanitizer run is not memory safety: red zones miss non-adjacent over-reads"],
      "distances equal the metric's definition",
-     "All lengths 1..=300 x all 16 byte offsets x 8 value classes x 4 metrics through the public Distance functions on Leafs borrowed from exact-size heap buffers, every kernel (plain/SSE/AVX) directly through the hook, dispatch rule, symmetry, self-distance, range; thorough adds an ASan leg (over-read = report) and a Miri leg on the pure-Rust kernels.",
+     "All lengths 1..=300 x all 16 byte offsets x 10 value classes x 4 metrics through the public Distance functions on Leafs borrowed from exact-size heap buffers, every kernel (plain/SSE/AVX) directly through the hook, dispatch rule, symmetry, self-distance, range; thorough adds an ASan leg (over-read = report) and a Miri leg on the pure-Rust kernels.",
      "f64 oracle with proven rounding bounds; host CPU features decide which kernels run",
      "runtime monitoring: differential f64 oracle over kernel/Distance outputs + ASan/Miri on the SIMD kernels",
      "DESIGN.md §3 C11, §4")
